@@ -1,8 +1,13 @@
 package main
 
 import (
+	"encoding/json"
 	"fmt"
+	"go/ast"
+	"go/token"
 	"go/types"
+	"os"
+	"path/filepath"
 	"sort"
 	"strings"
 
@@ -44,6 +49,8 @@ type Engine struct {
 	allPkgs        map[string]*types.Package // by name and by path
 	loadS          float64
 	mutexKeys      map[string]bool
+	lockedLocals   map[string][]string          // locals.lock.json: function key -> local variable names in declaration order
+	aliasCache     map[*ssa.Function]map[string]string
 }
 
 func LoadEngine(repo, trustedDir string) (*Engine, error) {
@@ -62,6 +69,9 @@ func LoadEngine(repo, trustedDir string) (*Engine, error) {
 	e := &Engine{repo: repo, prog: prog, pkgs: pkgs, spkgs: spkgs, fns: map[string]*ssa.Function{}, tags: map[string]int{},
 		fnids: map[*ssa.Function]int{}, loops: map[*ssa.Function]map[*ssa.BasicBlock]*loopInfoT{}, ufuns: map[string]*ufunDecl{},
 		policies: map[string]*policyInfo{}, typesByDir: map[string]*types.Package{}, allPkgs: map[string]*types.Package{}}
+	if b, err := os.ReadFile(filepath.Join(filepath.Dir(filepath.Dir(trustedDir)), "locals.lock.json")); err == nil {
+		json.Unmarshal(b, &e.lockedLocals)
+	}
 	var all []*ssa.Function
 	for fn := range ssautil.AllFunctions(prog) {
 		if fn.Pkg == nil || !isHeliosPkg(fn.Pkg.Pkg) {
@@ -444,6 +454,102 @@ func (e *Engine) someMethodModifies(st types.Type, field string) bool {
 			if m == "*" || strings.HasSuffix(m, "."+field) {
 				return true
 			}
+		}
+	}
+	return false
+}
+
+// localNames lists the local variables a function declares (parameters, results and the bodies of nested
+// function literals excluded), in source order.
+func (e *Engine) localNames(fn *ssa.Function) []string {
+	syn := fn.Syntax()
+	if syn == nil || fn.Pkg == nil {
+		return nil
+	}
+	var info *types.Info
+	for _, p := range e.pkgs {
+		if p.Types == fn.Pkg.Pkg {
+			info = p.TypesInfo
+		}
+	}
+	if info == nil {
+		return nil
+	}
+	var body *ast.BlockStmt
+	switch n := syn.(type) {
+	case *ast.FuncDecl:
+		body = n.Body
+	case *ast.FuncLit:
+		body = n.Body
+	}
+	if body == nil {
+		return nil
+	}
+	type ent struct {
+		pos  token.Pos
+		name string
+	}
+	var out []ent
+	ast.Inspect(body, func(n ast.Node) bool {
+		if _, lit := n.(*ast.FuncLit); lit {
+			return false
+		}
+		if id, ok := n.(*ast.Ident); ok && id.Name != "_" {
+			if v, isVar := info.Defs[id].(*types.Var); isVar && !v.IsField() {
+				out = append(out, ent{id.Pos(), id.Name})
+			}
+		}
+		return true
+	})
+	sort.Slice(out, func(i, j int) bool { return out[i].pos < out[j].pos })
+	names := make([]string, len(out))
+	for i, x := range out {
+		names[i] = x.name
+	}
+	return names
+}
+
+func (e *Engine) fnKey(fn *ssa.Function) string {
+	if fn.Pkg == nil {
+		return ""
+	}
+	return pkgDirOf(fn.Pkg.Pkg) + "|" + relName(fn)
+}
+
+// aliases: contract name -> current name, for locals that were renamed since the contracts were locked. Only when
+// the function declares the same number of locals as then (a pure rename keeps positions); otherwise no alias
+// is made and a contract naming a vanished local fails to bind as before.
+func (e *Engine) aliases(fn *ssa.Function) map[string]string {
+	if a, ok := e.aliasCache[fn]; ok {
+		return a
+	}
+	if e.aliasCache == nil {
+		e.aliasCache = map[*ssa.Function]map[string]string{}
+	}
+	var al map[string]string
+	locked, ok := e.lockedLocals[e.fnKey(fn)]
+	cur := e.localNames(fn)
+	if ok && len(locked) == len(cur) {
+		for i := range cur {
+			if locked[i] != cur[i] {
+				if al == nil {
+					al = map[string]string{}
+				}
+				al[locked[i]] = cur[i]
+			}
+		}
+	}
+	e.aliasCache[fn] = al
+	return al
+}
+
+func (e *Engine) hasAnyContract(fn *ssa.Function) bool {
+	if e.contractOf(fn) != nil {
+		return true
+	}
+	for _, li := range e.loopInfo(fn) {
+		if e.cs.Loops[fmt.Sprintf("%s|%s#%d", pkgDirOf(fn.Pkg.Pkg), relName(fn), li.ordinal)] != nil {
+			return true
 		}
 	}
 	return false
